@@ -2,9 +2,7 @@
 //! --tier quick|thorough --out FILE --replay FILE]`.
 use vh::runner;
 
-mod c10;
-mod c11;
-mod c17;
+use vh::{c10, c11, c17};
 
 fn main() {
     let args: Vec<String> = std::env::args().skip(1).collect();
